@@ -1,3 +1,5 @@
 import Biogo.Properties.C10
 open Biogo.Properties.C10
 #print axioms facts_tie
+#print axioms foreach_spec
+#print axioms validWindows_spec
